@@ -32,6 +32,59 @@ let model op c args =
   | "pki" -> (match parse_keyspace_id (a 0) with Some id -> "ok " ^ hex_of_n id | None -> "err")
   | _ -> "unknown-op"
 
+(* ---- replay of the object-level observations (pool lines) on the heap model ---- *)
+let pool_c = mk_ks "x" "102ff"
+let pool_h = ref { rh = (fun _ -> { r_keyed = false; r_inner = O; r_api = false; r_rev = O }); mh = (fun _ -> { m_keys = []; m_ctx = None });
+                   next_r = O; next_m = O; pool = [] }
+let pool_keyed : (int, bool) Hashtbl.t = Hashtbl.create 64
+let keys_of s = if s = "-" then [] else List.map bytes_of_hex (String.split_on_char ',' s)
+let keys_str l = if l = [] then "-" else String.concat "," (List.map hex_of_bytes l)
+let kv f = match String.index_opt f '=' with Some i -> (String.sub f 0 i, String.sub f (i + 1) (String.length f - i - 1)) | None -> (f, "")
+let b01 b = if b then "1" else "0"
+(* returns (cases, mismatch description list) *)
+let pool_line fields : string list =
+  match fields with
+  | "begin" :: _ -> Hashtbl.reset pool_keyed;
+      pool_h := { !pool_h with rh = (fun _ -> { r_keyed = false; r_inner = O; r_api = false; r_rev = O }); mh = (fun _ -> { m_keys = []; m_ctx = None }); next_r = O; next_m = O; pool = [] }; []
+  | "caller" :: i :: _name :: keyed :: keys :: _ ->
+      let a = nat_of_int (int_of_string i) in
+      Hashtbl.replace pool_keyed (int_of_string i) (keyed = "1");
+      let h = !pool_h in
+      pool_h := { rh = upd h.rh a { r_keyed = (keyed = "1"); r_inner = a; r_api = false; r_rev = O };
+                  mh = upd h.mh a { m_keys = keys_of keys; m_ctx = None };
+                  next_r = S a; next_m = S a; pool = [] }; []
+  | "send" :: _ :: name :: "error" :: rest -> ["pool " ^ name ^ ": the transmission failed: " ^ String.concat " " rest]
+  | "send" :: a_s :: name :: rest ->
+      let f = List.map kv rest in
+      let g k = try List.assoc k f with Not_found -> "" in
+      let h = !pool_h in
+      let a = nat_of_int (int_of_string a_s) in
+      let ret = int_of_string (g "ret") in
+      let pl = List.map int_of_nat h.pool in
+      let rec index x l n = match l with [] -> None | y :: t -> if x = y then Some n else index x t (n + 1) in
+      let choice = match index ret pl 0 with
+        | Some i -> Some i
+        | None -> if ret = int_of_nat h.next_r then Some (List.length pl) else None in
+      (match choice with
+       | None -> ["pool " ^ name ^ ": EncodeRequest returned request object " ^ string_of_int ret ^ " for caller " ^ a_s
+                  ^ ", which is neither a new object nor one of the pooled ones [" ^ String.concat ";" (List.map string_of_int pl) ^ "] (the model: r := pool.Get())"]
+       | Some i ->
+         let keyed = (try Hashtbl.find pool_keyed (int_of_string a_s) with Not_found -> true) in
+         let had_pred = (h.mh ((h.rh a).r_inner)).m_ctx <> None in
+         let ((wk, wc), h') = send real pool_c a (nat_of_int i) h in
+         pool_h := h';
+         let dec_pred = (match h'.pool with r :: _ -> int_of_nat r | [] -> -1) in
+         let ca = h'.rh a in
+         let exp = [ ("shared", b01 (not keyed)); ("dec", string_of_int dec_pred); ("hadctx", b01 had_pred);
+                     ("wire", keys_str wk); ("ctx", (match wc with Some true -> "v2" | Some false -> "v1" | None -> "none"));
+                     ("callerkeys", keys_str (h'.mh ca.r_inner).m_keys); ("callersame", b01 (int_of_nat ca.r_inner = int_of_string a_s));
+                     ("callerapi", b01 ca.r_api) ] in
+         List.fold_left (fun acc (k, v) ->
+           let o = g k in
+           if o = v || (k = "ctx" && o = "noctx") || (k = "hadctx" && g "ctx" = "noctx") then acc
+           else ("pool " ^ name ^ " caller " ^ a_s ^ ": " ^ k ^ " observed " ^ o ^ ", the model predicts " ^ v) :: acc) [] exp)
+  | _ -> []
+
 let () =
   let n = ref 0 and mism = ref 0 and pfail = ref 0 and pn = ref 0 in
   let counts = Hashtbl.create 64 in
@@ -44,6 +97,9 @@ let () =
         let verdict = List.nth rest (List.length rest - 1) in
         bump ("P:" ^ name ^ ":" ^ verdict);
         if verdict <> "pass" then begin incr pfail; if !pfail <= 400 then print_endline ("PROPFAIL\t" ^ line) end
+    | "pool" :: fields ->
+        (match fields with "send" :: _ -> incr n; bump "pool:send" | _ -> ());
+        List.iter (fun d -> incr mism; if !mism <= 50 then print_endline ("MISMATCH\tpool\t" ^ line ^ "\t" ^ d)) (pool_line fields)
     | op :: m :: id :: rest when (m = "r" || m = "x") ->
         let rec split acc l = match l with "=>" :: r -> (List.rev acc, r) | x :: r -> split (x :: acc) r | [] -> (List.rev acc, []) in
         let (args, res) = split [] rest in
